@@ -2,6 +2,7 @@
 //! cases and prints canonical observation lines (see /verif/DESIGN.md section 6).
 mod common;
 mod c19;
+mod c17;
 
 fn main() {
     common::install_panic_hook();
@@ -13,6 +14,7 @@ fn main() {
     let a = common::parse_args(&args[2..]);
     match args[1].as_str() {
         "c19" => c19::main(&a),
+        "c17" => c17::main(&a),
         "features" => {
             println!("checks={} explanations={}", cfg!(feature = "checks"), cfg!(feature = "explanations"));
         }
